@@ -1277,7 +1277,8 @@ class GeoRing(PolygonBase):
         # Make sure bearing within wedge, if a wedge
         if self.angle_max - self.angle_min < 360:
             bearing = bearing_degrees(self.center, coord)
-            if not self.angle_min <= bearing <= self.angle_max:
+            # Compare modulo 360 so that ranges passing through north (350..370, -10..10) work
+            if (bearing - self.angle_min) % 360 > self.angle_max - self.angle_min:
                 return False
 
         radius = haversine_distance_meters(self.center, coord)
